@@ -207,6 +207,17 @@ def _mutated(m):
     return src, apply(src, m["op"], m["idx"], tuple(m["extra"]) if isinstance(m["extra"], list) else m["extra"])
 
 
+def _tree_stamp():
+    mx, n = 0.0, 0
+    for dp, dn, fn in os.walk(os.path.join(REPO, "reactivex")):
+        dn[:] = [d for d in dn if d != "__pycache__"]
+        for f in fn:
+            if f.endswith(".py"):
+                mx = max(mx, os.stat(os.path.join(dp, f)).st_mtime)
+                n += 1
+    return (mx, n)
+
+
 class _Pool:
     """One persistent scratch copy per worker thread."""
 
@@ -232,6 +243,23 @@ class _Pool:
             self.dirs.append(d)
         return d
 
+    def fresh(self, rel, src):
+        """The worker's scratch copy, re-made if /repo changed under it (a fix commit during a long sweep would otherwise leave the
+        copy on the old source while the rules already expect the new one)."""
+        d = self.dir()
+        stamp = _tree_stamp()
+        same = getattr(self.local, "stamp", None) == stamp
+        if not same and getattr(self.local, "stamp", None) is None:
+            self.local.stamp = stamp
+            same = True
+        if not same:
+            self.local.stamp = stamp
+            shutil.rmtree(d, ignore_errors=True)
+            self.dirs.remove(d)
+            self.local.d = None
+            d = self.dir()
+        return d
+
     def close(self):
         for d in self.dirs:
             shutil.rmtree(d, ignore_errors=True)
@@ -241,7 +269,14 @@ def cmd_checks(args):
     j = int(args[args.index("-j") + 1]) if "-j" in args else 12
     muts = _load()
     prev = {}
-    if "--redo-errors" in args or "--redo-silent" in args:
+    if "--redo-suspect" in args:
+        # re-run the mutants on which only the given check:rule pairs fired (used when a scratch copy went stale under a rule change)
+        pats = tuple(args[args.index("--redo-suspect") + 1].split(","))
+        prev = json.load(open(os.path.join(OUT, "checks.json")))
+        muts = [m for m in muts if prev.get(str(m["id"]), {}).get("status") == "ok" and prev[str(m["id"])]["fired"]
+                and all(f.startswith(pats) for f in prev[str(m["id"])]["fired"])]
+        print("re-running", len(muts), "mutants", flush=True)
+    elif "--redo-errors" in args or "--redo-silent" in args:
         # re-run only the mutants whose earlier run ended in an analysis error (or, --redo-silent, on which nothing fired):
         # used after the checkers changed
         prev = json.load(open(os.path.join(OUT, "checks.json")))
@@ -258,7 +293,7 @@ def cmd_checks(args):
             return m["id"], {"status": "invalid", "why": f"{type(e).__name__}: {e}"[:100]}
         if ast.dump(ast.parse(src)) == ast.dump(ast.parse(new)):
             return m["id"], {"status": "invalid", "why": "no-op"}
-        d = pool.dir()
+        d = pool.fresh(m["file"], src)
         path = os.path.join(d, m["file"])
         try:
             open(path, "w").write(new)
@@ -298,7 +333,7 @@ def cmd_tests(args):
 
     def one(m):
         src, new = _mutated(m)
-        d = pool.dir()
+        d = pool.fresh(m["file"], src)
         path = os.path.join(d, m["file"])
         try:
             open(path, "w").write(new)
